@@ -481,6 +481,31 @@ func RunMPTBulk(w *tr.Writer, st *MPTStats, tid int, r *rand.Rand) {
 	if res != "ok" {
 		keysOK = false
 	}
+	// codec round trip of every node kind over the (origin, version) plane: the two fields are independent
+	Guard(func() string {
+		marks := []int64{0, 1, 2, 255, 256, 1<<31 - 1, 1 << 31, 1<<32 + 1, 1<<62 + 3}
+		for i := 0; i < 40; i++ {
+			o, v := marks[r.Intn(len(marks))], marks[r.Intn(len(marks))]
+			val := Val([]byte(fmt.Sprintf("rt%d:\x00:%d", i, o)))
+			var nodes []util.Node
+			fn := util.NewFullNode(val)
+			fn.PutChild('a', bytes.Repeat([]byte{byte(i + 1)}, 32))
+			nodes = append(nodes, util.NewLeafNode(util.Path("0a"), util.Path("1b2c"), util.Sequence(o), val), fn,
+				util.NewExtensionNode(util.Path("3d4e"), util.Key(bytes.Repeat([]byte{byte(i + 7)}, 32))))
+			for _, nd := range nodes {
+				nd.SetOrigin(util.Sequence(o))
+				nd.SetVersion(util.Sequence(v))
+				enc := nd.Encode()
+				n2, err := util.CreateNode(bytes.NewReader(enc))
+				if err != nil || !bytes.Equal(n2.Encode(), enc) || !bytes.Equal(n2.GetHashBytes(), nd.GetHashBytes()) ||
+					n2.GetOrigin() != nd.GetOrigin() || n2.GetVersion() != nd.GetVersion() {
+					rtOK = false
+				}
+				total++
+			}
+		}
+		return "ok"
+	})
 	w.Emit(map[string]any{"tid": tid, "op": "sweep", "keysOK": keysOK, "rtOK": rtOK, "n": total, "bulk": n})
 	st.Events++
 }
